@@ -17,6 +17,7 @@ def hx(b):
 class C28:
     id = 'C28'
     level = 'exploration'
+    schedule_sampled = True
     build = [('asan', 'fx')]
     workers = 8
     examples = 1500
@@ -44,14 +45,16 @@ class C28:
         lev = st.sampled_from(list(LEVELS) + ['y'])
         script = st.one_of(st.lists(lev, min_size=1, max_size=20), st.lists(lev, min_size=50, max_size=200)).map(''.join)
         return st.fixed_dictionaries({'levels': st.one_of(st.just('diwef'), st.sets(st.sampled_from(list(LEVELS))).map(lambda s: ''.join(sorted(s)))),
-                                      'scripts': st.lists(script, min_size=1, max_size=8), 'stop': st.one_of(st.just(-1), st.just(-1), st.integers(0, 10 ** 6))})
+                                      'scripts': st.lists(script, min_size=1, max_size=8), 'stop': st.one_of(st.just(-1), st.just(-2), st.just(-2), st.integers(0, 10 ** 6))})
 
     def run(self, case, ex):
         scripts = case['scripts']
         total = sum(1 for s in scripts for c in s if c != 'y')
         if total == 0:
             return {}
-        stop_after = -1 if case['stop'] < 0 else case['stop'] % (total + 1)
+        # stop: -1 = after the producer threads have been joined; -2 = the instant the last send has returned (the main thread spins on the counter of returned
+        # sends: stop() follows the last submit within a microsecond, while the logger thread still holds a backlog); k = after the k-th returned send
+        stop_after = -1 if case['stop'] == -1 else total if case['stop'] == -2 else case['stop'] % (total + 1)
         a = ex.call('logrun %s %d %d %s' % (case['levels'] or '-', len(scripts), stop_after, ';'.join(scripts)), timeout=170)
         text = bytes.fromhex(a['file']).decode('latin-1')
         lines = text.split('\n')
@@ -229,6 +232,7 @@ CHECKS = {'C28': C28, 'C29': C29}
 class C30:
     id = 'C30'
     level = 'exploration'
+    schedule_sampled = True
     build = [('asan', 'fx')]
     workers = 8
     examples = 3000
